@@ -50,6 +50,7 @@ from numpy import (
 from sympy import (
     Basic,
     Expr,
+    Symbol,
     latex,
     limit,
     sympify,
@@ -392,21 +393,21 @@ class Element(ABC):
         if not _is_integer(identifier):
             raise TypeError(f"Expected an integer instead of {identifier=}")
 
-        substitutions: Dict[str, Union[str, float]] = {}
+        substitutions: Dict[str, Union[str, float, Expr]] = {}
         values: Dict[str, float] = self.get_values()
 
         key: str
         value: float
         for key, value in values.items():
-            repl: Union[str, float]
+            repl: Union[str, float, Expr]
 
             if not substitute:
                 if self._label != "":
-                    repl = f"{key}_{self._label}"
+                    repl = Symbol(f"{key}_{self._label}")
                 elif identifier >= 0:
-                    repl = f"{key}_{identifier}"
+                    repl = Symbol(f"{key}_{identifier}")
                 else:
-                    repl = f"{key}"
+                    repl = Symbol(f"{key}")
 
             elif isposinf(value):
                 repl = "oo"
@@ -1781,11 +1782,11 @@ class Container(Element):
             repl: Union[str, float, Expr]
             if not substitute:
                 if self._label != "":
-                    repl = f"{key}_{self._label}"
+                    repl = Symbol(f"{key}_{self._label}")
                 elif identifier >= 0:
-                    repl = f"{key}_{identifier}"
+                    repl = Symbol(f"{key}_{identifier}")
                 else:
-                    repl = f"{key}"
+                    repl = Symbol(f"{key}")
             elif isposinf(value):
                 repl = "oo"
             elif isneginf(value):
